@@ -77,7 +77,7 @@ CHECKS = {
     "C15": dict(level="proof", campaigns=[TCP_CAMP, dict(engine="mconn", n=n(400, 20000))], trusted_base=TCP_TB, assumptions=TCP_AS + ["a handler panic would skip AddClosed: conditional on C18"]),
     "C13": dict(
         level="proof",
-        campaigns=[dict(engine="lockstress", n=n(60, 1500), netns=True)],
+        campaigns=[dict(engine="lockstress", n=n(60, 1500), netns=True), dict(engine="config", n=n(8, 150), netns=True)],
         trusted_base=LOCK_TB,
         assumptions=["threads are the listen/close calls of the manager API; their lock programs are the generated ones"],
     ),
@@ -97,7 +97,7 @@ CHECKS = {
     ),
     "C08": dict(
         level="proof",
-        campaigns=[dict(engine="tcpauth", n=n(600, 12000)), dict(engine="tcp", n=n(15, 300), netns=True)],
+        campaigns=[dict(engine="tcpauth", n=n(600, 12000)), dict(engine="tcp", n=n(15, 300), netns=True), dict(engine="conc", n=n(10, 200))],
         trusted_base=AUTH_TB,
         assumptions=["HMAC-SHA1 is a parameter of the theorems; RNG freshness of the salt prefix is a contract (pairwise distinctness is checked empirically)"],
     ),
@@ -134,7 +134,7 @@ CHECKS = {
     "C07": dict(
         level="proof",
         campaigns=[dict(engine="replay", n=n(1500, 30000), args={"ops": 200}), dict(engine="tcpauth", n=n(400, 8000)),
-                   dict(engine="conc", n=n(15, 300))],
+                   dict(engine="conc", n=n(15, 300)), dict(engine="config", n=n(8, 150), netns=True)],
         trusted_base=["model Model/Replay.lean of service/replay.go tied by the `replay` differential campaign",
                       "Gen/Consts.lean (MaxCapacity) regenerated from source"],
         assumptions=["ReplayCache.Add/Resize are each one critical section (C19 lock-set facts)",
